@@ -331,17 +331,56 @@ func (_this *cteListener) ExitValueFloat(ctx *parser.ValueFloatContext) {
 		}
 	}
 
-	decimal, cond, err := apd.NewFromString(strNoSign)
-	if err != nil {
-		panic(err)
-	}
-	if cond != 0 {
-		panic(fmt.Errorf("APD Condition %v", cond))
+	decimal, ok := parseBigDecimalFloat(strNoSign)
+	if !ok {
+		var cond apd.Condition
+		var err error
+		decimal, cond, err = apd.NewFromString(strNoSign)
+		if err != nil {
+			panic(err)
+		}
+		if cond != 0 {
+			panic(fmt.Errorf("APD Condition %v", cond))
+		}
 	}
 	if sign < 0 {
 		decimal = decimal.Neg(decimal)
 	}
 	_this.eventReceiver.OnBigDecimalFloat(decimal)
+}
+
+// Parse an unsigned decimal float literal (digits[.digits][e[+-]digits]) into
+// coefficient and exponent directly. apd.NewFromString refuses exponents
+// beyond +-100000, but such values arrive from CBE (which stores the exponent
+// as-is) and are printed by the CTE encoder, so they must be readable as well.
+func parseBigDecimalFloat(str string) (*apd.Decimal, bool) {
+	mantissa := str
+	exponent := int64(0)
+	if i := strings.IndexAny(str, "eE"); i >= 0 {
+		e, err := strconv.ParseInt(str[i+1:], 10, 32)
+		if err != nil {
+			return nil, false
+		}
+		exponent = e
+		mantissa = str[:i]
+	}
+	if i := strings.IndexByte(mantissa, '.'); i >= 0 {
+		exponent -= int64(len(mantissa) - i - 1)
+		mantissa = mantissa[:i] + mantissa[i+1:]
+	}
+	if len(mantissa) == 0 || exponent < math.MinInt32 || exponent > math.MaxInt32 {
+		return nil, false
+	}
+	for _, ch := range mantissa {
+		if ch < '0' || ch > '9' {
+			return nil, false
+		}
+	}
+	decimal := &apd.Decimal{Exponent: int32(exponent)}
+	if _, ok := decimal.Coeff.SetString(mantissa, 10); !ok {
+		return nil, false
+	}
+	return decimal, true
 }
 
 func (_this *cteListener) ExitValueInf(ctx *parser.ValueInfContext) {
